@@ -2,9 +2,11 @@ package server
 
 import (
 	"context"
+	"errors"
 	"fmt"
 	"io"
 	"log/slog"
+	"math"
 	"net/http"
 	"strconv"
 	"strings"
@@ -144,6 +146,20 @@ var errInvalidByteRange error = fmt.Errorf("invalid byte range")
 // parseRangeHeader parses HTTP Range header and returns storage.ByteRange array.
 // It converts HTTP ranges (inclusive end) to storage ranges (exclusive end) automatically.
 // Suffix ranges (bytes=-N) are passed through as-is to be resolved by the storage layer.
+// parseRangeNumber parses a byte position or suffix length. RFC 7233 lets a
+// client send arbitrarily large values; anything beyond int64 is clamped, which
+// is equivalent because no object is that large.
+func parseRangeNumber(s string) (int64, error) {
+	value, err := strconv.ParseInt(s, 10, 64)
+	if err != nil {
+		if errors.Is(err, strconv.ErrRange) && value == math.MaxInt64 {
+			return value, nil
+		}
+		return 0, err
+	}
+	return value, nil
+}
+
 func parseRangeHeader(rangeHeader string) ([]storage.ByteRange, error) {
 	var ranges []storage.ByteRange
 	if rangeHeader == "" {
@@ -167,14 +183,14 @@ func parseRangeHeader(rangeHeader string) ([]storage.ByteRange, error) {
 		var end *int64
 
 		if byteSplit[0] != "" {
-			startByte, err := strconv.ParseInt(byteSplit[0], 10, 64)
+			startByte, err := parseRangeNumber(byteSplit[0])
 			if err != nil {
 				return nil, errInvalidByteRange
 			}
 			start = &startByte
 		}
 		if byteSplit[1] != "" {
-			endByte, err := strconv.ParseInt(byteSplit[1], 10, 64)
+			endByte, err := parseRangeNumber(byteSplit[1])
 			if err != nil {
 				return nil, errInvalidByteRange
 			}
@@ -190,7 +206,9 @@ func parseRangeHeader(rangeHeader string) ([]storage.ByteRange, error) {
 		} else if start != nil {
 			// Normal range: convert inclusive end to exclusive end
 			var exclusiveEnd *int64
-			if end != nil {
+			if end != nil && *end != math.MaxInt64 {
+				// a last-byte-pos at (or clamped to) the int64 maximum is beyond any
+				// object: the range is open-ended, and end+1 must not overflow
 				excEnd := *end + 1
 				exclusiveEnd = &excEnd
 			}
